@@ -25,7 +25,8 @@ CLAIMED['C19'] = dict(
          'method table PUT/POST/DELETE, empty delete body, text content type, timeout hand-over, gateway spelling equivalences. The literals, the '
          'sorted() call and the escape shape are re-extracted from exposition.py on every run; model vs real code on ~7·10^3 requests (exhaustive '
          'short strings over a URL-significant alphabet + random) with an independent decoder oracle (urlsafe_b64decode / unquote_plus) on the real URLs.',
-    note="The lossless theorems hold under BOTH decoders: the Pushgateway's path unescaping ('+' literal; *_go theorems, which depend on the extracted encoder flag) and form decoding. Trusted: urlparse reduced to its scheme test (compared with the real urlparse per case); sorted() of unique str keys = code-point order; exposition body is an opaque parameter here (C03 covers it); the registry-is-None branch of pushadd_to_gateway is not modelled; job is a str.",
+    note="The lossless theorems hold under BOTH decoders: the Pushgateway's path unescaping ('+' literal; *_go theorems, which depend on the extracted encoder flag) and form decoding. Trusted: urlparse reduced to its scheme test (compared with the real urlparse per case); sorted() of unique str keys = code-point order; exposition body is an opaque parameter here (C03 covers it); the registry-is-None branch of pushadd_to_gateway is not modelled; job is a str."
+         " The library's own handlers are inside the model too (Props/C19Handlers: default/passthrough/basic-auth handler send exactly the request _use_gateway built — method, URL, headers, body, caller's time-out; status >= 400 raises OSError; a followed redirect keeps method/body/headers; registry=None means REGISTRY), re-extracted from exposition.py and run against a loopback http.server and a stubbed opener; urllib's opener, http.client and sockets are trusted; tls_auth_handler not modelled.",
     ref='DESIGN.md 5 C19')
 
 CLAIMED['C17'] = dict(
@@ -45,7 +46,8 @@ CLAIMED['C18'] = dict(
          '(failure_is_clean), success installs new, distinct (pid,tid) give distinct tmp names (tmp_names_distinct), two writers each complete. The real '
          'function is run with every single fault at every I/O step and collector, a reader snapshot at every cut, and all 924 interleavings of two real threads.',
     note='Trusted: Lean kernel; rename(2) atomicity and buffered-writer behaviour (modelled both flush-at-write and flush-at-close); single-fault model; '
-         'BaseException that is not an Exception (KeyboardInterrupt from a collector) leaves tmp behind — outside the stated fault classes, proved as a documented limit.',
+         'BaseException that is not an Exception (KeyboardInterrupt from a collector) leaves tmp behind — outside the stated fault classes, proved as a documented limit.'
+         ' Histories with identity changes AFTER earlier successful writes (write; fork/thread; concurrent writes scheduled step by step across processes) are part of the quick tier; T1 flags tmp-name parts not evaluated per call.',
     ref='DESIGN.md 5 C18')
 
 CLAIMED['C01'] = dict(
@@ -120,7 +122,8 @@ CLAIMED['C16'] = dict(
          'counter-examples. exec-generated callables with all parameter kinds, scripted bodies and clocks are run through the real wrappers with an identity/metric-delta oracle.',
     note='Known findings (vendored decorator.py, listed): F13 positional-only parameters (clash / accepted by keyword / marker lost), F22 keyword-only _call_/_func_, F23 lambda renamed, F34 non-function callables refused. '
          'inprogress_balanced is about exact arithmetic (Int); on doubles the gauge returns to its prior value up to IEEE rounding of +1/−1 (exact for integer-valued gauges below 2^53). '
-         'exec-generated wrapper source and CPython binding are modelled, not verified; async/generator bodies not modelled.',
+         'exec-generated wrapper source and CPython binding are modelled, not verified; async/generator bodies not modelled.'
+         " Timer.labels is modelled (timer heap; labelled_block_exact, timer_labels_twice_raises, decorated_call_observes_ref_at_call_time); on a labelled parent never labelled inside the block __exit__ raises ValueError and replaces the body's outcome (unlabelled_parent_raises_at_exit) — outside the statement's domain ('on a metric or a labelled child'), counted not judged.",
     ref='DESIGN.md 5 C16')
 
 CLAIMED['C08'] = dict(
@@ -136,7 +139,8 @@ CLAIMED['C09'] = dict(
          'call-order facts re-extracted from values.py each run; theorems for histories of any length with any number of identity changes incl. returning to an earlier identity: writes_only_own_files, '
          'rebinding_reads_current, per_pid_gauge_partial, conservation_partial (sum over all identities\' files = sum of all increments in a commutative monoid). Simulated identities with a change '
          'inserted at every position, per-file contents observed after every step; thorough tier uses real os.fork().',
-    note='The *_partial theorems (per_pid_gauge, conservation, caches_coherent, world_cell, reuse_continues, conservation_world) hold for histories in which every update goes through the YOUNGEST value object on its (file prefix, key); stale objects are allowed (remove()/clear() then labels() again is covered); updating both an old and a new object on one key loses updates in the real code too and the model reproduces it (two_objects_lose_updates). Identities contain no underscore; conservation is for series that are only incremented, in a commutative monoid. writes_only_own_files, rebinding_reads_current, dead_removes_only_live_files, entry_present_iff need none of this. World histories include spawn/dead/pid reuse.',
+    note='The *_partial theorems (per_pid_gauge, conservation, caches_coherent, world_cell, reuse_continues, conservation_world) hold for histories in which every update goes through the YOUNGEST value object on its (file prefix, key); stale objects are allowed (remove()/clear() then labels() again is covered); updating both an old and a new object on one key loses updates in the real code too and the model reproduces it (two_objects_lose_updates). Identities contain no underscore; conservation is for series that are only incremented, in a commutative monoid. writes_only_own_files, rebinding_reads_current, dead_removes_only_live_files, entry_present_iff need none of this. World histories include spawn/dead/pid reuse.'
+         " Real os.fork() trees (parent keeps appending between the fork and the child's first operation; chains; siblings) run in the quick tier with a byte-level oracle on every file the acting process does not own.",
     ref='DESIGN.md 5 C09')
 
 CLAIMED['C03'] = dict(
@@ -155,7 +159,8 @@ CLAIMED['C14'] = dict(
          'Timestamp comparisons. Each repaired raise site is a T1 flag, so reverting a fix breaks the theorem. Grammar-generated documents with all single mutations and truncation at every '
          'offset, plus unstructured strings, are run twice through both real parsers under a watchdog and compared with the model.',
     note='Hypotheses of om_parser_total are interpreter facts (float("NaN") is NaN; no \\d character is whitespace), validated on the generated tables. int()/float() raise only ValueError (trusted). '
-         'Determinism of the real code is sampled (each input parsed twice).',
+         'Determinism of the real code is sampled (each input parsed twice).'
+         ' Input classes added in round 8/9: quoted tokens in every region of a sample line cut at every position with odd/even backslash runs.',
     ref='DESIGN.md 5 C14')
 CLAIMED['C15'] = dict(
     text='One theorem per rule of the statement over lists of parsed lines with the offending line at an arbitrary position and arbitrary names, labels, numbers, groups before and after it: '
